@@ -101,6 +101,10 @@ def b_callable(ex, st, pos, kw, node, star, dstar):
 
 
 def b_str(ex, st, pos, kw, node, star, dstar):
+    if pos:
+        us = user_str(ex, st, pos[0])
+        if us is not None:
+            return [(s1, r if r[0] == 'exc' else ('val', Val.s(r[1]))) for s1, r in us]
     return val(st, Val.s(tostr(pos[0]))) if pos else val(st, S(''))
 
 
@@ -323,9 +327,42 @@ def l_is_iterable(ex, st, pos, kw, node, star, dstar):
 FIELD = re.compile(r'\{([^{}:!]*)(?:![rs])?(?::([^{}]*))?\}')
 
 
+def user_str(ex, st, v):
+    """str(v) / '{}'.format(v) for an object whose class defines __str__ in the repository: that method is executed (it may raise);
+    [(state, ('val', Str term) | ('exc', e))], or None when v has no repository __str__"""
+    if not st.entails(Val.is_ref(v)):
+        return None
+    k = ex.kind_of(st, v); cn = k if isinstance(k, str) else (k[1] if k else None)
+    if cn is None or not (cn in ex.repo.classes or any(c in ex.repo.classes for c in LAT.mro(cn))):
+        return None
+    node_, kind, dc = ex.repo.method(cn, '__str__')
+    if node_ is None:
+        return None
+    outs = []
+    for s1, r in ex.call_function(st, node_, ex.repo.classes[dc][0], dc, None, [v], {}, name='__str__'):
+        if r[0] == 'exc':
+            outs.append((s1, r))
+        else:
+            sS, sB = ex.fork(s1, Val.is_s(r[1]))
+            if sS is not None: outs.append((sS, ('val', Val.sv(r[1]))))
+            if sB is not None: outs.append(ex.raise_(sB, 'TypeError'))          # __str__ returned non-string
+    return outs
+
+
 def s_format(ex, st, recv, pos, kw, node, star, dstar):
     rv = z3.simplify(Val.sv(recv))
     if z3.is_string_value(rv) and dstar is None and star is None:
+        # arguments whose class defines __str__ in the repository: run it first (state-threaded), then format with the resulting texts
+        for i_, a_ in enumerate(pos):
+            us = user_str(ex, st, a_) if not getattr(ex, '_in_user_str', False) else None
+            if us is not None:
+                outs = []
+                for s1, r in us:
+                    if r[0] == 'exc':
+                        outs.append((s1, r)); continue
+                    p2 = list(pos); p2[i_] = Val.s(r[1])
+                    outs += s_format(ex, s1, recv, p2, kw, node, star, dstar)
+                return outs
         fmt = rv.as_string(); parts = []; i = 0; auto = 0
         for m in FIELD.finditer(fmt):
             if m.start() > i: parts.append(z3.StringVal(fmt[i:m.start()]))
@@ -410,6 +447,29 @@ def l_now_local(ex, st, pos, kw, node, star, dstar):
     o = st.alloc('datetime'); st.wr(o, 'instant', I(fresh('local_now', z3.IntSort()))); st.g['localnow_reads'] = st.g.get('localnow_reads', []) + [o]; return val(st, o)
 
 
+JOINED = z3.Function('joined', Str, SeqV, Str)
+
+
+def s_join(ex, st, recv, pos, kw, node, star, dstar):
+    """sep.join(xs): TypeError unless every element is a str; the text is kept abstract except for statically known lists"""
+    xs = pos[0]; sp = ex.spine(st, xs)
+    if sp is None:
+        s2 = st.copy(); return [(st, ('val', Val.s(JOINED(Val.sv(recv), st.seq(xs))))), ex.raise_(s2, 'TypeError')]
+    outs = []; cur = st
+    for e_ in sp:
+        sS, sB = ex.fork(cur, Val.is_s(e_))
+        if sB is not None: outs.append(ex.raise_(sB, 'TypeError'))
+        if sS is None:
+            return outs
+        cur = sS
+    parts = []
+    for i_, e_ in enumerate(sp):
+        if i_: parts.append(Val.sv(recv))
+        parts.append(Val.sv(e_))
+    r = z3.StringVal('') if not parts else parts[0] if len(parts) == 1 else z3.Concat(*parts)
+    return outs + [(cur, ('val', Val.s(r)))]
+
+
 def s_split(ex, st, recv, pos, kw, node, star, dstar):
     """s.split(sep): modelled through its first element only (what the repository uses): the part before the first separator"""
     sep = Val.sv(pos[0]); s = Val.sv(recv); idx = z3.IndexOf(s, sep, 0)
@@ -440,6 +500,7 @@ def install(ex):
               'time.time': l_time, 'jsonpickle.encode': l_encode_nondet, 'datetime.datetime.utcnow': l_utcnow, 'datetime.datetime.now': l_now_local, 'uuid.uuid1': l_uuid1,
               'collections.Counter': l_counter, 'collections.OrderedDict': l_ordereddict, 'threading.local': l_threadlocal,
               'six.text_type': b_str})
+    ex.strm.update({'join': s_join})
     ex.strm.update({'lstrip': _strip(0), 'rstrip': _strip(1), 'strip': _strip(2)})
     ex.strm.update({'format': s_format, 'encode': s_encode, 'startswith': s_startswith, 'endswith': s_endswith, 'replace': s_replace,
                     'split': s_split})
